@@ -454,6 +454,25 @@ func execRoundtrip(a []string) Result {
 					l, ok := back.Get(inv.Link())
 					chk(ok && l.String() == firstFor[inv.Link().String()], "invocation-to-receipt mapping changed")
 				}
+				// a receipt that embeds the invocation it ran carries everything that invocation carries,
+				// attached blocks included
+				present := map[int]bool{}
+				for b := range back.Blocks() {
+					if id, ok := extra[b.Link().String()]; ok {
+						present[id] = true
+					}
+				}
+				for k := range invs {
+					if (k+nattach)%3 == 1 || (k > 0 && invs[k].Link().String() == invs[0].Link().String()) {
+						continue // ran is a bare link
+					}
+					for _, at := range attached[w.Invs[k]] {
+						chk(present[at], fmt.Sprintf("block %d attached to invocation %d is missing from the message of its receipt", at, w.Invs[k]))
+					}
+					for id := range expectPre[w.Invs[k]] {
+						chk(present[id], fmt.Sprintf("block %d attached to a proof of invocation %d is missing from the message of its receipt", id, w.Invs[k]))
+					}
+				}
 				var got []string
 				for _, l := range back.Receipts() {
 					got = append(got, l.String())
